@@ -123,7 +123,7 @@ func resumptionHello(cfg *tls.Config) ([]byte, error) {
 	cfg.InsecureSkipVerify = true
 	// loopback TCP rather than net.Pipe: both ends may write at the same
 	// time (alerts, tickets) and a synchronous pipe would deadlock
-	ln, err := net.Listen("tcp", "127.0.0.1:0")
+	ln, err := hx.Listen("tcp", "127.0.0.1:0")
 	if err != nil {
 		return nil, err
 	}
